@@ -21,7 +21,7 @@ func init() {
 	core.Register(&core.Prop{
 		ID:    "C02",
 		Level: "exploration",
-		Rule: "one case = one write program (1..24 ops over Alloc/Put/Put(*Stream)/WriteCompressed/OpenStream+chunked Write+Put-while-open/Writer.Get/explicit numbers) x configuration " +
+		Rule: "one case = one write program (1..24 ops over Alloc/Put/Put(*Stream)/WriteCompressed/OpenStream+chunked Write+Put-while-open/Writer.Get/explicit numbers and generations, also for streams; pre-encoded DCT/JBIG2/CCITT streams; now and then thousands of objects, objects with hundreds of sibling containers, and invalid requests - a wrong caller-supplied /Length, WriteCompressed with a non-zero generation - that must be refused or served correctly) x configuration " +
 			"(9 versions x HumanReadable x 5 sink kinds x password sets x ID) x read personality (EOF-with-data or not, password used, error-handling mode); " +
 			"non-trivial = the Writer accepted the program and at least one drawn object or stream was written; distinct = different hash of (configuration, sequence of operation kinds and filter chains, read personality)",
 		Assumptions: []string{
